@@ -12,7 +12,7 @@ ID = "C03"
 RULE = (
     "Hypothesis-generated (J, u, norm_eps, reg_eps, dtype): J from ten matrix families (grid, Gaussian, prescribed "
     "SVD, low rank, near-antiparallel pair, duplicated rows, zero rows, stationary, entrywise non-negative, row "
-    "norms over 12 decades), 1<=m<=7, 1<=n<=10 (one case in four widened by 90 / 1500 Gaussian or 3000 zero columns), rescaled to "
+    "norms over 12 decades), 1<=m<=7, 1<=n<=10 (one case in three widened by 90 .. 140000 Gaussian or zero columns), rescaled to "
     "s = 10^[0.05,9] x norm_eps (70%) or {1e-3,0.5,0.9} x norm_eps (30%), one case in ten at an extreme scale (s up to "
     "1e30, or s in [1e-34,1e-22] with norm_eps = 1e-36); "
     "J optionally delivered in a reused tensor object that held another matrix at the previous call of the same instance; "
